@@ -526,6 +526,16 @@ func c19build(w *c19world) {
 	cfg := zap.NewProductionConfig()
 	cfg.DisableCaller, cfg.DisableStacktrace = true, true
 	cfg.Sampling = nil
+	switch g.Draw(6) {
+	case 1:
+		cfg.Sampling = &zap.SamplingConfig{Initial: 100, Thereafter: 100}
+	case 2:
+		cfg.Sampling = &zap.SamplingConfig{Initial: 0, Thereafter: 1} // no initial burst, then every entry
+	case 3:
+		// negative counts: Build accepts them (every entry is sampled or
+		// none is); whatever it makes of them, it must not half-fail
+		cfg.Sampling = &zap.SamplingConfig{Initial: pick(g, -1, 1000), Thereafter: pick(g, -1, 1000)}
+	}
 	cfg.EncoderConfig = encCfg()
 	cfg.OutputPaths, cfg.ErrorOutputPaths = nil, nil
 	cfg.Development = g.Chance(3)
